@@ -280,6 +280,10 @@ pub fn run(args: &Args) -> i32 {
     for b in 0..w.bases.len() {
         for p in &prefixes {
             for l in 0..w.alpha.len() + 3 {
+                // quick: on the 59-alias base (about 700 storage calls per step) only the steps that touch aliases
+                if args.tier == engine::Tier::Quick && w.bases[b].0 == "alias_map_near_rehash" && !(l < w.alpha.len() && w.alpha[l].0.contains("alias")) {
+                    continue;
+                }
                 items.push((b, p.clone(), l));
             }
         }
